@@ -48,7 +48,7 @@ CLAIMS = {
         'text': 'Exception-flow containment: in each sync and asyncio receive loop no exception raised by the framer call or the '
                 'transport read can leave the loop, and the handler resets the framer or ends the connection (a handler task shared by all peers of a datagram endpoint must not end); datastore mutators are '
                 'reachable only through Request.execute <- front-end execute; framers/decoders never touch datastores; framers hold no '
-                'class-level mutable state and every connection owns its framer; a framer path that delivers a message without a successful checkFrame is accepted only when restricted to function codes >= 0x80 (they decode to a request that touches no datastore); decode() of every write request reads exactly the declared fields. Thorough tier cross-checks the Twisted reactor '
+                'class-level mutable state and every connection owns its framer; a framer path that delivers a message without a successful checkFrame is accepted only when restricted to function codes >= 0x80 (they decode to a request that touches no datastore); decode() of every write request reads exactly the declared fields; a framer shared by all peers of a datagram endpoint keeps nothing of an undelivered datagram (with an inductively proved entry invariant of the socket framer). Thorough tier cross-checks the Twisted reactor '
                 'containment assumption against the installed Twisted sources.',
         'note': 'Statements other than the framer call / transport read are treated as non-raising; Twisted containment is an assumption in the quick tier.',
         'technique': 'exception-flow analysis over enumerated paths + call-graph who-may-call (static)',
@@ -94,7 +94,7 @@ CLAIMS = {
         'text': 'Loop-variant analysis of the retry loop (initial value retries + 1, > 0 test, exactly one decrement per back-edge, one '
                 '_transact per iteration, no other repeated sender), the retry decision table enumerated over the loop-body paths '
                 'against the documented options (a reply counts as the caller\'s own only under equality of unit ids), exception-flow from _recv/_send through _transact, the five framers and execute '
-                '(what can escape a client call), the clean-exit state / close-on-fault discipline, that the serial client drains stale input before every write for every framing, that a short or empty first read raises, and that the time budget of the client polling loops is fixed before the loop, and that every iteration of the RTU send wait loop sets the awaited state or waits on the deadline.',
+                '(what can escape a client call), the clean-exit state / close-on-fault discipline, that the serial client drains stale input before every write for every framing, that a short or empty first read raises, and that the time budget of the client polling loops is fixed before the loop, that every iteration of the RTU send wait loop sets the awaited state or waits on the deadline, and that no transport method closes the socket on a normally returning path.',
         'note': 'Wall-clock bounds of blocking transport calls and the correctness of a following transaction are not decided. '
                 'Six genuine defects are listed as known findings.',
         'technique': 'loop-variant extraction + decision-table enumeration + interprocedural exception-flow summaries (static)',
